@@ -57,17 +57,11 @@ package remote
 // ---- C09: per-recipient results of the remote target ----
 //@ import smtpconn "github.com/foxcpp/maddy/internal/smtpconn"
 // Shape of a delivery: every connection of the transaction is a live object with its smtpconn.C.
-//@ pure func rdOK(rd *remoteDelivery) bool = rd != nil && rd.msgMeta != nil && rd.connections != nil && (forall d string :: has(rd.connections, d) ==> rd.connections[d] != nil && rd.connections[d].C != nil)
-// connectionForDomain: the connection used for a recipient domain in this transaction (opened, or taken from the
-// pool, with MAIL already sent). Trusted here (frame and shape only); its security obligations belong to C05.
-//@ func (*remoteDelivery).connectionForDomain
-//@   prop C09
-//@   trusted
-//@   requires rdOK(rd)
-//@   modifies *
-//@   ensures rdOK(rd)
-//@   ensures rd.recipients == old(rd.recipients) && rd.msgMeta == old(rd.msgMeta) && rd.msgMeta.Quarantine == old(rd.msgMeta.Quarantine)
-//@   ensures result1 == nil ==> result0 != nil && result0.C != nil && result0.C.cl != nil && has(rd.connections, domain) && rd.connections[domain] == result0
+//@ pure func connOKw(rd *remoteDelivery, d string) bool = rd.connections[d] != nil && rd.connections[d].C != nil && (rd.connections[d].vetted >= len(rd.policies) || rd.connections[d].C.sockClosed)
+//@ pure func connsDistinct(rd *remoteDelivery) bool = forall d string, e string :: has(rd.connections, d) && has(rd.connections, e) && d != e ==> rd.connections[d] != rd.connections[e] && rd.connections[d].C != rd.connections[e].C
+//@ pure func rdOKw(rd *remoteDelivery) bool = rd != nil && rd.msgMeta != nil && rd.rt != nil && rd.connections != nil && (forall d string :: has(rd.connections, d) ==> connOKw(rd, d)) && connsDistinct(rd)
+//@ pure func rdOK(rd *remoteDelivery) bool = rdOKw(rd) && (forall d string :: has(rd.connections, d) ==> rd.connections[d].C.cl != nil)
+// (connectionForDomain is under contract below, with the C05 obligations.)
 //@ func moduleError
 //@   prop C09 C05
 //@   ensures result != nil
@@ -75,10 +69,12 @@ package remote
 // the address given, and RCPT is sent on the connection of that domain with that address; a quarantined message
 // gets no recipient accepted.
 //@ func (*remoteDelivery).AddRcpt
-//@   prop C09
+//@   prop C09 C05
 //@   modifies *
-//@   requires rdOK(rd)
-//@   ensures rdOK(rd)
+//@   requires rdOK(rd) && len(rd.policies) <= len(rd.rt.policies) && (forall d string :: gDest[d] >= 0)
+//@   ensures rdOK(rd) && len(rd.policies) <= len(rd.rt.policies) && (forall d string :: gDest[d] >= 0)
+// C05: RCPT for a recipient goes out only on the connection connectionForDomain returned for its domain (which passed
+// this delivery's policies), and never for a quarantined message.
 //@   assert-call (*remoteDelivery).connectionForDomain : splitOK(to) && $domain == splitDom(to) && !rd.msgMeta.Quarantine
 //@   assert-call (*smtpconn.C).Rcpt : $to == to && has(rd.connections, splitDom(to)) && $c == rd.connections[splitDom(to)].C
 //@   ensures result == nil ==> len(rd.recipients) == old(len(rd.recipients)) + 1 && rd.recipients[len(rd.recipients)-1] == to
@@ -89,7 +85,9 @@ package remote
 // succeeds) exactly one status is reported for every recipient recorded on that connection, under the recorded address.
 //@ import gosmtp "github.com/emersion/go-smtp"
 //@ func (*remoteDelivery).BodyNonAtomic$1
-//@   prop C09
+//@   prop C09 C05
+// C05: message content is handed only to a connection of the delivery's table, and never for a quarantined message.
+//@   assert-call (*smtpconn.C).Data : $c == conn.C && !rd.msgMeta.Quarantine
 //@   modifies gStCnt, mxConn.errored, mxConn.lastUseAt, *conn.C.cl, gosmtp.SMTPError.Code, gosmtp.SMTPError.EnhancedCode, sync.WaitGroup.sema, sync.WaitGroup.state
 //@   requires conn != nil && conn.C != nil && b != nil && c != nil && !rd.msgMeta.Quarantine
 //@   ensures forall r string :: gStCnt[r] == old(gStCnt)[r] + occ(old(conn.C.rcpts), len(old(conn.C.rcpts)), r)
@@ -98,10 +96,208 @@ package remote
 // BodyNonAtomic: a quarantined message is never transmitted: every recorded recipient gets exactly one (failure)
 // status and no connection is used; otherwise one reporting goroutine is started per connection of the transaction.
 //@ func (*remoteDelivery).BodyNonAtomic
-//@   prop C09
+//@   prop C09 C05
 //@   modifies *
 //@   requires rdOK(rd) && c != nil && b != nil
 //@   ensures old(rd.msgMeta.Quarantine) ==> (forall r string :: gStCnt[r] == old(gStCnt)[r] + occ(old(rd.recipients), len(old(rd.recipients)), r))
 //@   loop 0 invariant forall r string :: gStCnt[r] == old(gStCnt)[r] + occ(old(rd.recipients), rangeindex + 1, r)
 //@   loop 0 invariant rd.msgMeta.Quarantine
 //@   loop 1 invariant rdOK(rd) && !rd.msgMeta.Quarantine
+
+// ---- C05: outbound security policies ----
+//@ import future "github.com/foxcpp/maddy/framework/future"
+//@ import mtasts "github.com/foxcpp/go-mtasts"
+//@ import fdns "github.com/foxcpp/maddy/framework/dns"
+//@ import module "github.com/foxcpp/maddy/framework/module"
+// Asynchronous lookups (MTA-STS policy, TLSA records) deliver a value or an error; what a future holds is a function
+// of the future for the duration of the checks (assumed).
+//@ uninterp func futVal(f *future.Future) any
+//@ uninterp func futErr(f *future.Future) error
+//@ extern func (*future.Future).GetContext(f *future.Future, ctx context.Context) (val interface{}, err error)
+//@   ensures val == futVal(f) && err == futErr(f)
+//@ uninterp func stsMatch(p mtasts.Policy, mx string) bool
+//@ extern func (mtasts.Policy).Match(p mtasts.Policy, mx string) bool
+//@   ensures result == stsMatch(p, mx)
+//@ pure func stsPolicy(c *mtastsDelivery) *mtasts.Policy = as(futVal(c.policyFut), "*mtasts.Policy")
+// local_policy: the minimum MX / TLS level is enforced against the level established by the policies before it.
+//@ func (localPolicy).CheckMX
+//@   prop C05
+//@   ensures (result1 == nil) == (mxLevel >= l.minMXLevel)
+//@   ensures result0 == module.MXNone
+//@ func (localPolicy).CheckConn
+//@   prop C05
+//@   ensures (result1 == nil) == (tlsLevel >= l.minTLSLevel)
+//@   ensures result0 == module.TLSNone
+// dnssec: the MX level is raised only for a DNSSEC-authenticated MX lookup.
+//@ func (dnssecPolicy).CheckMX
+//@   prop C05
+//@   ensures result1 == nil && result0 == (dnssec ? module.MX_DNSSEC : module.MXNone)
+// MTA-STS: an MX that does not match an enforce-mode policy is refused; a matching MX raises the level; in enforce
+// mode a connection without a completed handshake or without a verified certificate chain is refused.
+//@ func (*mtastsDelivery).CheckMX
+//@   prop C05
+//@   requires c != nil && c.c != nil
+//@   ensures futErr(c.policyFut) != nil ==> result1 == nil && result0 == module.MXNone
+//@   ensures futErr(c.policyFut) == nil && !stsMatch(*stsPolicy(c), mx) && stsPolicy(c).Mode == mtasts.ModeEnforce ==> result1 != nil
+//@   ensures futErr(c.policyFut) == nil && !stsMatch(*stsPolicy(c), mx) && stsPolicy(c).Mode != mtasts.ModeEnforce ==> result1 == nil && result0 == module.MXNone
+//@   ensures futErr(c.policyFut) == nil && stsMatch(*stsPolicy(c), mx) ==> result1 == nil && result0 == module.MX_MTASTS
+//@ func (*mtastsDelivery).CheckConn
+//@   prop C05
+//@   requires c != nil && c.c != nil
+//@   ensures result0 == module.TLSNone
+//@   ensures futErr(c.policyFut) == nil && stsPolicy(c).Mode == mtasts.ModeEnforce && (!tlsState.HandshakeComplete || tlsState.VerifiedChains == nil) ==> result1 != nil
+//@   ensures futErr(c.policyFut) != nil || stsPolicy(c).Mode != mtasts.ModeEnforce || (tlsState.HandshakeComplete && tlsState.VerifiedChains != nil) ==> result1 == nil
+// DANE: without a DNSSEC-capable resolver or without TLSA records the policy has no opinion; any other discovery
+// failure defers delivery (temporary error) instead of letting the connection through; otherwise verifyDANE decides
+// (C13), and only its positive verdict raises the TLS level to authenticated.
+//@ uninterp func notFoundErr(e error) bool
+//@ extern func fdns.IsNotFound(err error) bool
+//@   ensures result == notFoundErr(err)
+//@ func (*daneDelivery).CheckConn
+//@   prop C05
+//@   requires c != nil && c.c != nil && !chainOK
+//@   requires tlsState.HandshakeComplete ==> len(tlsState.PeerCertificates) >= 1
+//@   modifies *
+//@   ensures old(c.c.extResolver) == nil ==> result1 == nil && result0 == module.TLSNone
+//@   ensures old(c.c.extResolver) != nil && futErr(old(c.tlsaFut)) != nil && notFoundErr(futErr(old(c.tlsaFut))) ==> result1 == nil && result0 == module.TLSNone
+//@   ensures old(c.c.extResolver) != nil && futErr(old(c.tlsaFut)) != nil && !notFoundErr(futErr(old(c.tlsaFut))) ==> result1 != nil && isTemp(result1)
+//@   ensures result1 == nil ==> result0 == module.TLSNone || result0 == module.TLSAuthenticated
+//@   assert-call verifyDANE : $connState == tlsState && isType(futVal(c.tlsaFut), "[]fdns.TLSA") && $recs == as(futVal(c.tlsaFut), "[]fdns.TLSA")
+
+// ---- C05: which connections carry a message ----
+//@ import pool "github.com/foxcpp/maddy/internal/smtpconn/pool"
+//@ import limits "github.com/foxcpp/maddy/internal/limits"
+// vetted(conn): the number of policy instances of the delivery that opened the connection whose CheckMX and
+// CheckConn both accepted it (ghost; set by attemptMX, which is held to the counters of accepted checks).
+//@ ghost field mxConn.vetted int
+//@ ghost var gMXOk int
+//@ ghost var gConnOk int
+//@ extern func (module.DeliveryMXAuthPolicy).CheckMX(p module.DeliveryMXAuthPolicy, ctx context.Context, mxLevel module.MXLevel, domain string, mx string, dnssec bool) (lvl module.MXLevel, err error)
+//@   modifies gMXOk
+//@   ensures gMXOk == old(gMXOk) + (err == nil ? 1 : 0)
+//@ extern func (module.DeliveryMXAuthPolicy).CheckConn(p module.DeliveryMXAuthPolicy, ctx context.Context, mxLevel module.MXLevel, tlsLevel module.TLSLevel, domain string, mx string, tlsState tls.ConnectionState) (lvl module.TLSLevel, err error)
+//@   modifies gConnOk
+//@   ensures gConnOk == old(gConnOk) + (err == nil ? 1 : 0)
+//@ extern func (module.DeliveryMXAuthPolicy).PrepareConn(p module.DeliveryMXAuthPolicy, ctx context.Context, mx string)
+//@ extern func (module.DeliveryMXAuthPolicy).PrepareDomain(p module.DeliveryMXAuthPolicy, ctx context.Context, domain string)
+// connect (STARTTLS with fall-back) is assumed at its call site for its frame only: it works on the smtpconn.C of the
+// connection (and the go-smtp client it creates); which TLS level it reports for which handshake is NOT decided here.
+//@ extern func (*remoteDelivery).attemptMX#connect$call(rd *remoteDelivery, ctx context.Context, c mxConn, host string, tlsCfg *tls.Config) (tlsLevel module.TLSLevel, tlsErr error, err error)
+//@   modifies *conn.C
+//@   ensures err == nil ==> conn.C.cl != nil && fresh(conn.C.cl) && !conn.C.sockClosed
+//@   ensures err != nil ==> conn.C.cl == nil || conn.C.sockClosed
+// attemptMX: a candidate MX is used only when every policy of the delivery accepted the MX (in policy order, each
+// seeing the level established by those before it) and, after connecting, every policy accepted the connection
+// (each seeing the TLS level established so far); the levels recorded on the connection are the maxima established.
+//@ import prometheus "github.com/prometheus/client_golang/prometheus"
+//@ func (*remoteDelivery).attemptMX
+//@   prop C05
+//@   modifies gMXOk, gConnOk, conn.mxLevel, conn.tlsLevel, *conn.C, conn.vetted, prometheus.CounterVec.MetricVec
+//@   ensures result == nil ==> conn.C.cl != nil && !conn.C.sockClosed
+//@   ensures result != nil ==> conn.C.cl == nil || conn.C.sockClosed || (conn.C.cl == old(conn.C.cl) && conn.C.sockClosed == old(conn.C.sockClosed) && conn.vetted == old(conn.vetted))
+//@   requires rd != nil && rd.rt != nil && conn != nil && conn.C != nil && record != nil
+//@   ensures result == nil ==> gMXOk == old(gMXOk) + old(len(rd.policies)) && gConnOk == old(gConnOk) + old(len(rd.policies))
+//@   trusted-ensures result == nil ==> conn.vetted == old(len(rd.policies))
+//@   assert-call (module.DeliveryMXAuthPolicy).CheckMX : $p == rd.policies[rangeindex + 1] && $mxLevel == mxLevel && $domain == conn.domain && $mx == record.Host && $dnssec == conn.dnssecOk
+//@   assert-call (module.DeliveryMXAuthPolicy).CheckConn : $p == rd.policies[rangeindex + 1] && $mxLevel == mxLevel && $tlsLevel == tlsLevel && $domain == conn.domain && $mx == record.Host
+//@   loop 0 invariant gMXOk == old(gMXOk) + rangeindex + 1 && gConnOk == old(gConnOk) && rd.policies == old(rd.policies) && conn.domain == old(conn.domain) && conn.dnssecOk == old(conn.dnssecOk) && record.Host == old(record.Host)
+//@   loop 1 invariant gMXOk == old(gMXOk) + len(rd.policies) && gConnOk == old(gConnOk) + rangeindex + 1 && rd.policies == old(rd.policies) && len(rd.policies) == old(len(rd.policies)) && conn.domain == old(conn.domain) && record.Host == old(record.Host)
+//@ func (*Target).Name
+//@   prop C05
+//@ func (*mxConn).Close
+//@   prop C05
+//@   requires c != nil && c.C != nil
+//@   modifies *c.C, *c.C.cl
+//@   ensures c.C.cl == nil || c.C.sockClosed
+// lookupMX: DNS only (trusted frame).
+//@ func (*remoteDelivery).lookupMX
+//@   prop C05
+//@   trusted
+//@   requires rd != nil
+//@   ensures forall k int :: 0 <= k && k < len(records) ==> records[k] != nil
+// newConn: a new connection to a domain is returned only after attemptMX accepted some MX candidate for it, i.e. all
+// of this delivery's policies accepted MX and connection.
+// rdSame(rd): the delivery's own state (recipients, message, policies, connection table) is as it was.
+//@ pure func rdSame(rd *remoteDelivery) bool = rd.recipients == old(rd.recipients) && rd.msgMeta == old(rd.msgMeta) && rd.rt == old(rd.rt) && rd.policies == old(rd.policies) && rd.connections == old(rd.connections) && rd.mailFrom == old(rd.mailFrom)
+// connsSame(rd): the connection table of the delivery and what the contracts say about its connections are as they were.
+//@ pure func connsSame(rd *remoteDelivery) bool = forall d string :: has(rd.connections, d) == old(has(rd.connections, d)) && rd.connections[d] == old(rd.connections[d]) && (has(rd.connections, d) && old(rd.connections[d]) != nil ==> rd.connections[d].C == old(rd.connections[d].C) && rd.connections[d].vetted == old(rd.connections[d].vetted) && (old(rd.connections[d].C) != nil ==> rd.connections[d].C.cl == old(rd.connections[d].C.cl) && rd.connections[d].C.sockClosed == old(rd.connections[d].C.sockClosed)))
+//@ func (*remoteDelivery).newConn
+//@   prop C05
+//@   modifies *
+//@   requires rd != nil && rd.rt != nil && rd.msgMeta != nil
+//@   ensures rdSame(rd)
+//@   ensures gDest == old(gDest) && rd.msgMeta.Quarantine == old(rd.msgMeta.Quarantine) && rd.msgMeta.SMTPOpts == old(rd.msgMeta.SMTPOpts) && len(rd.rt.policies) == old(len(rd.rt.policies)) && len(rd.policies) == old(len(rd.policies))
+//@   trusted-ensures connsSame(rd)
+//@   ensures result1 == nil ==> result0 != nil && fresh(result0) && result0.C != nil && fresh(result0.C) && result0.C.cl != nil && result0.domain == domain
+//@   ensures result1 == nil ==> result0.vetted == len(rd.policies) || result0.C.sockClosed
+//@   loop 0 invariant (&conn).C != nil && fresh((&conn).C) && (&conn).domain == domain && (&conn).C.cl == nil && rd.rt != nil
+//@   loop 1 invariant (&conn).C != nil && fresh((&conn).C) && (&conn).domain == domain && ((&conn).C.cl != nil ==> (&conn).vetted == len(rd.policies) || (&conn).C.sockClosed) && rd.rt != nil
+
+// connectionForDomain: the connection that carries the message for a recipient domain - the one already opened in
+// this transaction, one taken from the pool, or a new one - passed every policy of this delivery (or its socket is
+// closed and nothing can be sent on it). Pooled connections passed the target's full policy set when they were
+// opened (pool invariant: assumed at Get, an obligation at every Return - see Close); a message that asks for
+// REQUIRETLS never gets a pooled connection and only one with authenticated TLS and an authenticated MX; the
+// message's own options are not changed (the relaxed-REQUIRETLS downgrade applies to the MAIL command only); the
+// per-destination permit is held exactly when a new connection was added for the domain.
+//@ ghost var gDest Map[string,int]
+//@ extern func (*remoteDelivery).connectionForDomain#Get$call(p *pool.P, ctx context.Context, key string) (c pool.Conn, err error)
+//@   ensures err == nil && c != nil ==> isType(c, "*mxConn") && as(c, "*mxConn") != nil && as(c, "*mxConn").C != nil && as(c, "*mxConn").C.cl != nil && as(c, "*mxConn").vetted >= len(rd.rt.policies)
+// ... and is used by no other delivery, in particular it is none of this delivery's connections (that is C19's property,
+// assumed here).
+//@   ensures err == nil && c != nil ==> (forall d string :: has(rd.connections, d) ==> rd.connections[d] != as(c, "*mxConn") && rd.connections[d].C != as(c, "*mxConn").C)
+//@ extern func (*remoteDelivery).connectionForDomain#TakeDest$call(g *limits.Group, ctx context.Context, domain string) error
+//@   modifies gDest
+//@   ensures result == nil ==> gDest == store(old(gDest), domain, old(gDest)[domain] + 1)
+//@   ensures result != nil ==> gDest == old(gDest)
+//@ extern func (*remoteDelivery).connectionForDomain#ReleaseDest$call(g *limits.Group, domain string)
+//@   requires gDest[domain] > 0
+//@   modifies gDest
+//@   ensures gDest == store(old(gDest), domain, old(gDest)[domain] - 1)
+//@ func (*remoteDelivery).connectionForDomain
+//@   prop C05 C09 C11
+//@   splitreturns
+//@   modifies *
+//@   requires rdOK(rd) && len(rd.policies) <= len(rd.rt.policies) && (forall d string :: gDest[d] >= 0)
+//@   ensures rdOK(rd)
+//@   ensures forall d string :: gDest[d] >= 0
+//@   ensures rd.recipients == old(rd.recipients) && rd.msgMeta == old(rd.msgMeta) && rd.policies == old(rd.policies) && rd.rt == old(rd.rt) && rd.msgMeta.Quarantine == old(rd.msgMeta.Quarantine)
+//@   ensures rd.msgMeta.SMTPOpts == old(rd.msgMeta.SMTPOpts) && len(rd.rt.policies) == old(len(rd.rt.policies)) && len(rd.policies) == old(len(rd.policies))
+//@   ensures result1 == nil ==> result0 != nil && result0.C != nil && result0.C.cl != nil && has(rd.connections, domain) && rd.connections[domain] == result0
+//@   ensures result1 == nil ==> result0.vetted >= len(rd.policies) || result0.C.sockClosed
+//@   ensures result1 == nil && old(rd.msgMeta.SMTPOpts.RequireTLS) && !old(has(rd.connections, domain)) ==> fresh(result0) && result0.tlsLevel >= module.TLSAuthenticated && result0.mxLevel >= module.MX_MTASTS
+//@   ensures result1 != nil || old(has(rd.connections, domain)) ==> gDest == old(gDest)
+//@   ensures result1 == nil && !old(has(rd.connections, domain)) ==> gDest == store(old(gDest), domain, old(gDest)[domain] + 1)
+//@   ensures forall d string :: d != domain ==> has(rd.connections, d) == old(has(rd.connections, d)) && rd.connections[d] == old(rd.connections[d])
+
+// Start: one policy instance per configured policy, in order - or none when the message carries the TLS-Required: No
+// override and the target allows it; the message permit is taken.
+//@ extern func (module.MXAuthPolicy).Start(p module.MXAuthPolicy, msgMeta *module.MsgMetadata) module.DeliveryMXAuthPolicy
+//@ extern func (*Target).Start#TakeMsg$call(g *limits.Group, ctx context.Context, addr net.IP, sourceDomain string) error
+//@ func (*Target).Start
+//@   prop C05
+//@   modifies *
+//@   requires rt != nil && msgMeta != nil && rt.limits != nil
+//@   ensures result1 == nil ==> isType(result0, "*remoteDelivery") && as(result0, "*remoteDelivery") != nil && as(result0, "*remoteDelivery").rt == rt && as(result0, "*remoteDelivery").msgMeta == msgMeta
+//@   ensures result1 == nil && !(old(msgMeta.TLSRequireOverride) && old(rt.allowSecOverride)) ==> len(as(result0, "*remoteDelivery").policies) == old(len(rt.policies))
+//@   ensures result1 == nil && old(msgMeta.TLSRequireOverride) && old(rt.allowSecOverride) ==> len(as(result0, "*remoteDelivery").policies) == 0
+//@   ensures result1 == nil ==> (forall d string :: !has(as(result0, "*remoteDelivery").connections, d))
+//@   loop 0 invariant len(policies) == rangeindex + 1 && rt.policies == old(rt.policies) && len(rt.policies) == old(len(rt.policies)) && rt.limits != nil
+// Close (Commit / Abort): every connection of the transaction is either closed or returned to the pool, and only a
+// connection that passed the target's FULL policy set may be returned (pool invariant): a delivery that ran with
+// fewer policies (TLS-Required: No override) closes its connections instead. The destination permit of every
+// connection is released.
+//@ func (*mxConn).Usable
+//@   prop C05
+//@   trusted
+//@   requires c != nil
+//@   modifies *c.C.cl
+//@ extern func (*remoteDelivery).Close#ReleaseDest$call(g *limits.Group, domain string)
+//@ extern func (*remoteDelivery).Close#ReleaseMsg$call(g *limits.Group, addr net.IP, sourceDomain string)
+//@ extern func (*pool.P).Return(p *pool.P, key string, c pool.Conn)
+//@ func (*remoteDelivery).Close
+//@   prop C05
+//@   modifies *
+//@   requires rdOK(rd) && len(rd.policies) <= len(rd.rt.policies) && rd.rt.pool != nil
+//@   assert-call (*pool.P).Return : isType($c, "*mxConn") && as($c, "*mxConn") == conn && $key == conn.domain && (conn.vetted >= len(rd.rt.policies) || conn.C.sockClosed)
+//@   loop 0 invariant rdOKw(rd) && (forall d string :: has(rd.connections, d) && !iterpos()[d] ==> rd.connections[d].C.cl != nil) && len(rd.policies) == old(len(rd.policies)) && len(rd.rt.policies) == old(len(rd.rt.policies)) && rd.rt.pool != nil && len(rd.policies) <= len(rd.rt.policies)
